@@ -242,7 +242,7 @@ class C13(Check):
         def s(draw):
             case = draw(G.cases(feats=BASE_FEATS, clean=True, n_scheds=1, min_nodes=2,
                                 max_nodes=8 if tier == 'quick' else 10))
-            case['collab'] = draw(collabs(faults=False))
+            case['collab'] = draw(collabs())
             case['all_points'] = tier == 'thorough'
             return _sanitize(case)
 
@@ -277,8 +277,11 @@ class C13(Check):
                     viol.append(('started-after-run-ended',
                                  pre + f'{e["kind"]} {e.get("node")} {e.get("hook", "")} started after run ended'))
                 oc = o.outcome
-                if cancel_at is not None and oc[0] == 'raised' and not isinstance(oc[1], R.Fatal):
+                if cancel_at is not None and h.cancel_accepted and oc[0] == 'raised' and not isinstance(oc[1], R.Fatal):
                     viol.append(('cancel-surfaces-as-' + type(oc[1]).__name__, pre + repr(oc[1])))
+                if cancel_at is not None and h.cancel_accepted and oc[0] in ('value', 'error'):
+                    viol.append(('cancel-swallowed', pre + 'the run task was cancelled while pending but chart.run '
+                                                     f'returned a result: {oc[:2]!r}'))
                 if cancel_at is None and oc[0] == 'cancelled':
                     viol.append(('escape:CancelledError', pre + 'nobody cancelled'))
             return viol, o, marker
